@@ -411,6 +411,10 @@ func Run(run *core.Run) {
 	if !run.Failed() && run.T.Bool(1, 3) {
 		nonFileFaults(run, w, wkey, cased)
 	}
+	// ---- a source with syntax errors: the parser still returns a (partial) file, which is decorated
+	if !run.Failed() && run.T.Bool(1, 3) {
+		brokenSourceFaults(run, w, truth, wkey, cased)
+	}
 }
 
 // decorateFault injects one fault on the decorate side and checks the five obligations.
@@ -829,6 +833,71 @@ func nonFileFaults(run *core.Run, w *workload, wkey string, cased func(string, f
 			again, _, _, err2, pi2 := parseDir(nil)
 			if pi2 != nil || err2 != nil || again != want {
 				run.Fail("c17/decorate/retry-mismatch", "dir", "ParseDir retry after a fault at call %d differs from the failure-free result", k)
+			}
+		})
+	}
+}
+
+// brokenSourceFaults: Decorator.ParseFile on a source that go/parser rejects but still returns a
+// partial file for. Failure-free, ParseFile returns the tree together with the parse error; with a
+// resolver fault it must return the resolver's error (wrapped), no tree, and a retry must equal the
+// failure-free call.
+func brokenSourceFaults(run *core.Run, w *workload, truth map[string]string, wkey string, cased func(string, func())) {
+	var broken string
+	for tries := 0; tries < 8 && broken == ""; tries++ {
+		kind := []int{faults.SfDropRange, faults.SfSyntaxByte, faults.SfTruncate, faults.SfDupRange}[run.T.Draw(4)]
+		cand, _ := faults.Corrupt(run.T, []byte(w.spec.Src), kind)
+		f, err := parser.ParseFile(token.NewFileSet(), "b.go", cand, parser.ParseComments)
+		if err != nil && f != nil && f.Name != nil && f.Package.IsValid() {
+			broken = string(cand)
+		}
+	}
+	if broken == "" {
+		return
+	}
+	parseFile := func(plan *faults.Plan) (out *dst.File, env *decoEnv, err error, pi *core.PanicInfo) {
+		env = newDecoEnv(w, truth, plan, nil)
+		dec := decorator.NewDecoratorWithImports(token.NewFileSet(), LocalPath, env.iw)
+		pi = core.Catch(func() { out, err = dec.ParseFile("b.go", broken, 0) })
+		return
+	}
+	ref, env, perr, pi := parseFile(nil)
+	if pi != nil || ref == nil || perr == nil || faults.IsInjected(perr) {
+		run.Count("broken-source-skipped")
+		return
+	}
+	want := dump.String(ref, dump.Options{})
+	N := env.iw.Calls
+	step := 1
+	if N > 30 {
+		step = N / 30
+	}
+	run.Count("broken-source-workloads")
+	for k := 1; k <= N && !run.Failed(); k += step {
+		k := k
+		cased(fmt.Sprintf("%s:broken:%s:%d", wkey, dump.HashString(broken), k), func() {
+			plan := &faults.Plan{KthCall: k}
+			out, fenv, err, pi := parseFile(plan)
+			run.Event("brokenfault #%d err=%v", k, err != nil)
+			if pi != nil {
+				run.Fail("c17/decorate/panic", "broken|"+pi.Sig(), "ParseFile of a source with syntax errors panicked with a resolver fault at call %d: %s\n%s", k, pi.Value, pi.Stack)
+				return
+			}
+			if fenv.iw.Fired == 0 {
+				return
+			}
+			run.Count("fault-fired/ident-kth(source-with-syntax-errors)")
+			if err == nil || !errors.Is(err, plan.Err) {
+				run.Fail("c17/decorate/error-not-wrapped", "broken", "ParseFile of a source with syntax errors, resolver fault at call %d: returned %q, which does not wrap the resolver's error", k, err)
+				return
+			}
+			if out != nil {
+				run.Fail("c17/decorate/tree-emitted", "broken", "ParseFile returned a tree together with the resolver error")
+				return
+			}
+			again, _, err2, pi2 := parseFile(nil)
+			if pi2 != nil || again == nil || err2 == nil || err2.Error() != perr.Error() || dump.String(again, dump.Options{}) != want {
+				run.Fail("c17/decorate/retry-mismatch", "broken", "retry after a fault at call %d differs from the failure-free call", k)
 			}
 		})
 	}
